@@ -11,6 +11,7 @@
 //!            response · WebSocket upgrade closed by the client / by the backend
 //!   TLS      garbage instead of a ClientHello · abort after the ClientHello ·
 //!            HTTP/1.1 over TLS complete
+//!            · WebSocket over TLS
 //!   HTTP/2   complete · a stream reset with RST_STREAM then another stream ·
 //!            client gone in the middle of a stream
 //!   TCP      complete · reset · backend refusal
@@ -426,6 +427,49 @@ fn h2_read_stream(s: &mut Tls, sid: u32, wait: Duration) -> Option<bool> {
     None
 }
 
+/// Are all per-(cluster, ip) slots of cluster `good` free, now that nothing talks to it?
+/// A slot left behind by a closed session stays attached to that session's token, and the next session
+/// that is given the same token inherits it (tracking is idempotent per token) and gives it back when it
+/// closes, which hides the leak: so the most recently freed tokens are first taken by silent connections
+/// that resolve no cluster, then a probe that gets a token of its own must be served with the limit at 1.
+/// -> Some(false): a slot is still held.  The limit is put back to `restore`.
+fn slot_probe(ch: &mut Main, id: &str, maxc: u64, front: &SocketAddr, restore: u64) -> Option<bool> {
+    if maxc < 2 {
+        return None;
+    }
+    let ok = |r: Option<WorkerResponse>| r.is_some_and(|r| r.status == ResponseStatus::Ok as i32);
+    if !ok(send(ch, &format!("{id}-a"), RequestType::SetMaxConnectionsPerIp(1))) {
+        return None;
+    }
+    let blockers = std::cmp::min(maxc - 1, 4);
+    let held: Vec<TcpStream> = (0..blockers).filter_map(|_| tcp(front)).collect();
+    std::thread::sleep(Duration::from_millis(40));
+    let mut verdict = None;
+    for _attempt in 0..6 {
+        if let Some(mut c) = tcp(front) {
+            let _ = c.write_all(request("good.test", "/x", true).as_bytes());
+            match read_response(&mut c, Duration::from_secs(2)) {
+                Some(l) if l.contains(" 200") => {
+                    verdict = Some(true);
+                    break;
+                }
+                Some(l) if l.contains(" 429") => {
+                    verdict = Some(false);
+                    break;
+                }
+                _ => {}
+            }
+        }
+        std::thread::sleep(Duration::from_millis(200));
+    }
+    drop(held);
+    std::thread::sleep(Duration::from_millis(40));
+    // a disabled limit wipes the accounting, which would hide what the final probe looks for: a run
+    // that started with a limit keeps one
+    let _ = send(ch, &format!("{id}-b"), RequestType::SetMaxConnectionsPerIp(restore));
+    verdict
+}
+
 // ---------------------------------------------------------------- main
 
 fn main() {
@@ -563,8 +607,10 @@ fn main() {
     let mut limit = per_ip;
     // the tightest limit that was in force ever since some still-open connection was admitted: the
     // storm only holds connections it opened itself after the last change, so `limit` is it
-    const NKINDS: u64 = 22;
+    const NKINDS: u64 = 23;
     let mut counts = [0usize; NKINDS as usize];
+    // how many times the outcome went as scripted (e.g. the response did arrive): coverage, not an oracle
+    let mut went = [0usize; NKINDS as usize];
     // debugging aid: C16BB_ONLY=7,19 cycles through the given outcomes only
     let only: Option<Vec<usize>> = std::env::var("C16BB_ONLY")
         .ok()
@@ -655,6 +701,7 @@ fn main() {
                     let _ = c.write_all(b"GET /ws HTTP/1.1\r\nHost: good.test\r\nUpgrade: websocket\r\nConnection: Upgrade\r\nSec-WebSocket-Key: dGhlIHNhbXBsZSBub25jZQ==\r\nSec-WebSocket-Version: 13\r\n\r\n");
                     let r = read_response(&mut c, Duration::from_secs(5));
                     if r.as_ref().is_some_and(|l| l.contains(" 101")) {
+                        went[kind] += 1;
                         let _ = c.write_all(b"ping-ping");
                         let mut buf = [0u8; 64];
                         let _ = c.read(&mut buf);
@@ -689,7 +736,9 @@ fn main() {
                 // HTTP/1.1 over TLS
                 if let Some(mut s) = tls_connect(&fronts, &[b"http/1.1"]) {
                     let _ = s.write_all(request("localhost", "/x", false).as_bytes());
-                    let _ = read_response(&mut s, Duration::from_secs(5));
+                    if read_response(&mut s, Duration::from_secs(5)).is_some_and(|l| l.contains(" 200") || l.contains(" 429")) {
+                        went[kind] += 1;
+                    }
                 }
             }
             13 => {
@@ -703,7 +752,9 @@ fn main() {
                             ok_first = r == Some(true);
                         }
                     }
-                    let _ = ok_first;
+                    if ok_first {
+                        went[kind] += 1;
+                    }
                     let _ = s.write_all(&h2_frame(7, 0, 0, &[0, 0, 0, 0, 0, 0, 0, 0]));
                 }
             }
@@ -714,7 +765,9 @@ fn main() {
                     std::thread::sleep(Duration::from_millis(30));
                     let _ = s.write_all(&h2_frame(3, 0, 1, &[0, 0, 0, 8]));
                     let _ = s.write_all(&h2_frame(1, 5, 3, &h2_headers(false, "/x")));
-                    let _ = h2_read_stream(&mut s, 3, Duration::from_secs(5));
+                    if h2_read_stream(&mut s, 3, Duration::from_secs(5)) == Some(true) {
+                        went[kind] += 1;
+                    }
                 }
             }
             15 => {
@@ -735,7 +788,9 @@ fn main() {
             16 => {
                 if let Some(mut c) = tcp(&tcp_good) {
                     let _ = c.write_all(b"PING / HTTP/1.1\r\n\r\n");
-                    let _ = read_response(&mut c, Duration::from_secs(5));
+                    if read_response(&mut c, Duration::from_secs(5)).is_some() {
+                        went[kind] += 1;
+                    }
                 }
             }
             17 => {
@@ -773,7 +828,23 @@ fn main() {
                     println!("obs limit {n}");
                 }
             }
-            _ => {
+            22 => {
+                // WebSocket over TLS; the client or the backend leaves
+                if let Some(mut s) = tls_connect(&fronts, &[b"http/1.1"]) {
+                    let _ = s.write_all(b"GET /ws HTTP/1.1\r\nHost: localhost\r\nUpgrade: websocket\r\nConnection: Upgrade\r\nSec-WebSocket-Key: dGhlIHNhbXBsZSBub25jZQ==\r\nSec-WebSocket-Version: 13\r\n\r\n");
+                    if read_response(&mut s, Duration::from_secs(5)).is_some_and(|l| l.contains(" 101")) {
+                        went[kind] += 1;
+                        let _ = s.write_all(b"ping-ping");
+                        let mut buf = [0u8; 64];
+                        let _ = s.read(&mut buf);
+                        if rng.next() % 2 == 0 {
+                            let _ = s.write_all(b"bye");
+                            let _ = wait_closed(&mut s, Duration::from_secs(6));
+                        }
+                    }
+                }
+            }
+            21 => {
                 // a storm above max_connections: everybody asks, nobody leaves
                 let n = maxc as usize + 3;
                 let mut conns: Vec<TcpStream> = (0..n).filter_map(|_| tcp(&front)).collect();
@@ -810,9 +881,19 @@ fn main() {
                 }
                 drop(conns);
             }
+            _ => {}
+        }
+        // sessions of the HTTPS and TCP listeners and WebSocket sessions close through their own paths:
+        // look for a slot they left behind before a later session recycles their token
+        if matches!(kind, 8 | 9 | 12 | 13 | 14 | 15 | 16 | 17 | 22) {
+            std::thread::sleep(Duration::from_millis(60));
+            if slot_probe(&mut main_ch, &format!("P-{round}"), maxc, &front, limit) == Some(false) {
+                println!("viol slot-leak after outcome {kind}: nothing talks to the cluster, the per-(cluster, ip) limit is 1, silent connections hold the recycled tokens, and a fresh connection was refused 429: a slot of a closed session is still held");
+            }
         }
     }
     println!("obs outcomes {:?}", counts);
+    println!("obs went {:?}", went);
 
     // everything is over: the footprint must come back to the baseline
     let t0 = Instant::now();
@@ -845,39 +926,25 @@ fn main() {
             }
         }
     }
-    // the worker accepts again, and the per-(cluster, ip) slots are all free: with the limit at n,
-    // n fresh concurrent connections (n <= max_connections) are all served
+    // the per-(cluster, ip) slots are all free (before any other connection recycles a token)
+    if slot_probe(&mut main_ch, "P-final", maxc, &front, 1) == Some(false) {
+        println!("viol slot-leak nothing talks to the cluster, the per-(cluster, ip) limit is 1, silent connections hold the recycled tokens, and a fresh connection was refused 429: a slot of a closed session is still held");
+    }
+    // the worker accepts again
     if maxc >= 1 {
-        let n = std::cmp::min(2, maxc);
-        let set = send(&mut main_ch, "L-final", RequestType::SetMaxConnectionsPerIp(n)).is_some_and(|r| r.status == ResponseStatus::Ok as i32);
-        let mut good = 0u64;
-        let mut refused = 0u64;
+        let mut served = false;
         for _attempt in 0..20 {
-            let mut conns: Vec<TcpStream> = (0..n).filter_map(|_| tcp(&front)).collect();
-            good = 0;
-            refused = 0;
-            for c in conns.iter_mut() {
-                let _ = c.write_all(request("good.test", "/x", false).as_bytes());
-            }
-            for c in conns.iter_mut() {
-                match read_response(c, Duration::from_secs(2)) {
-                    Some(l) if l.contains(" 200") => good += 1,
-                    Some(l) if l.contains(" 429") => refused += 1,
-                    _ => {}
+            if let Some(mut c) = tcp(&front) {
+                let _ = c.write_all(request("good.test", "/x", true).as_bytes());
+                if read_response(&mut c, Duration::from_secs(2)).is_some_and(|l| l.contains(" 200") || l.contains(" 429")) {
+                    served = true;
+                    break;
                 }
-            }
-            drop(conns);
-            if good == n {
-                break;
             }
             std::thread::sleep(Duration::from_millis(500));
         }
-        if good != n {
-            if set && refused > 0 {
-                println!("viol slot-leak nothing is connected, the per-(cluster, ip) limit is {n}, and of {n} fresh connections {refused} were refused 429: slots are still held");
-            } else {
-                println!("viol accept-wedged only {good} of {n} fresh connections were served within 20 attempts after everything had closed (max_connections={maxc})");
-            }
+        if !served {
+            println!("viol accept-wedged no request was answered within 20 attempts after everything had closed (max_connections={maxc})");
         }
     }
     let under = sozu_lib::metrics::VERIF_GAUGE_UNDERFLOWS.load(Ordering::SeqCst) - underflows_before;
